@@ -13,6 +13,7 @@ import random
 import shutil
 import threading
 import time
+from concurrent.futures import ThreadPoolExecutor
 
 import vf
 
@@ -71,8 +72,8 @@ def cfg_text(mode, kinds, ids, mis, lasts, legl=0, legr=0, lo=(), unhashed=False
 # legacy entries and local-only objects exist for kind acl only, unhashed entries for kind config only.
 MC = {
     "quick": [
-        ("all-3ids", dict(kinds=ALL, ids=(1, 2, 3), mis=(1, 2), lasts=(0, 1, 2))),
-        ("legacy-localonly-unhashed", dict(kinds=("acl", "config"), ids=(1, 2), mis=(1, 2), lasts=(0, 1, 2), legl=1, legr=1,
+        ("all-3ids", dict(kinds=ALL, ids=(1, 2, 3), mis=(1, 2), lasts=(0, 1))),
+        ("legacy-localonly-unhashed", dict(kinds=("acl", "config"), ids=(1, 2), mis=(1, 2), lasts=(0, 1), legl=1, legr=1,
                                            lo=(2, 3), unhashed=True, legcs=(1, 2))),
     ],
     "thorough": [
@@ -227,11 +228,11 @@ def judge(tagged, work, verdict, pred_hits):
                             {"kind": "repl-case", "case": row["case"], "predicate": nm})
 
 
-def run_mc(tier, out, errs):
+def run_mc(tier, configs, out, errs):
     try:
-        for name, kw in MC[tier]:
+        for name, kw in configs:
             r = vf.tlc_mc("ReplDiffMC", "mc.cfg", files={"mc.cfg": cfg_text("mc", **kw)}, timeout=2400, heap="8g",
-                          workers=min(8, vf.NCPU), coverage=(tier == "thorough"))
+                          workers=min(8 if tier == "thorough" else 4, vf.NCPU), coverage=(tier == "thorough"))
             out.append({"config": name, "constants": {k: (list(v) if isinstance(v, tuple) else v) for k, v in kw.items()},
                         "distinct": r.distinct, "generated": r.generated, "depth": r.depth, "wall_s": round(r.wall, 1),
                         "coverage_zero": sorted(set(r.coverage_zero))})
@@ -255,12 +256,18 @@ def run(tier):
     tagged = []
     try:
         mc_errs = []
-        mc_thread = threading.Thread(target=run_mc, args=(tier, cov["mc"], mc_errs))
-        mc_thread.start()
+        # quick: the (small) exhaustive runs side by side; thorough: the 4-id run next to the three others
+        # (computing initial states is single-threaded in TLC, so two JVMs overlap well)
+        groups = [[m] for m in MC[tier]] if tier == "quick" else [MC[tier][:1], MC[tier][1:]]
+        mc_threads = [threading.Thread(target=run_mc, args=(tier, g, cov["mc"], mc_errs)) for g in groups]
+        for t in mc_threads:
+            t.start()
         # --- replay of TLC-generated inputs
-        for name, kw in GEN[tier]:
+        def do_gen(item):
+            name, kw = item
             g = vf.tlc_gen("ReplDiffMC", "gen.cfg", files={"gen.cfg": cfg_text("gen", **kw)}, timeout=1800, heap="6g")
-            cases = [shuffled_case(c, typ_for(c, i), rng) for i, c in enumerate(g.traces)]
+            grng = random.Random("%d/%s" % (seed, name))
+            cases = [shuffled_case(c, typ_for(c, i), grng) for i, c in enumerate(g.traces)]
             cf = os.path.join(work, "cases-%s.json" % name)
             with open(cf, "w") as f:
                 json.dump(cases, f)
@@ -271,11 +278,16 @@ def run(tier):
             rows = vf.read_ndjson(tp)
             if len(rows) != len(cases):
                 raise vf.Infra("h-repl recorded %d of %d cases" % (len(rows), len(cases)))
+            return name, kw, len(g.traces), cases, rows
+
+        with ThreadPoolExecutor(max_workers=2) as pool:
+            gen_results = list(pool.map(do_gen, GEN[tier]))
+        for name, kw, n_init, cases, rows in gen_results:
             tagged.extend(("gen:" + name, r) for r in rows)
             bytyp = {}
             for c in cases:
                 bytyp[c["typ"]] = bytyp.get(c["typ"], 0) + 1
-            cov["gen"].append({"config": name, "tlc_initial_states": len(g.traces), "cases_executed": len(cases), "by_type": bytyp,
+            cov["gen"].append({"config": name, "tlc_initial_states": n_init, "cases_executed": len(cases), "by_type": bytyp,
                                "constants": {k: (list(v) if isinstance(v, tuple) else v) for k, v in kw.items()}})
             n_cases += len(rows)
             stats_of(rows, stats)
@@ -306,7 +318,8 @@ def run(tier):
         big = sorted(rows, key=lambda r: -(len(r["inL"]) + len(r["inR"])))[:1]
         for r in big:
             samples.append({"source": "random", **{k: r[k] for k in SLIM}, "accepted_by_tlc": True})
-        mc_thread.join()
+        for t in mc_threads:
+            t.join()
         if mc_errs:
             raise mc_errs[0]
         # --- vacuity
